@@ -799,6 +799,38 @@ pub fn run(ctx: &Ctx) -> Result<Report, String> {
     );
     base += colour_total;
     sizes.insert("colour_lattice_modifications".into(), json!(colour_total));
+    // every value of one channel (the other two fixed at a one-digit and a three-digit value)
+    let channel_total: u64 = 3 * 256 * 9;
+    sweep_items(
+        ctx,
+        channel_total,
+        1,
+        |i| {
+            let v = (i / 9 % 256) as u8;
+            let mut rgb = [7u8, 200, 45];
+            rgb[(i / 9 / 256) as usize] = v;
+            let c = Some(rgb);
+            let mut m = ModSpec::default();
+            match i % 3 {
+                0 => m.fg = c,
+                1 => m.bg = c,
+                _ => m.ulc = c,
+            }
+            match i / 3 % 3 {
+                0 => {}
+                1 => m.reset = true,
+                _ => m.strike = Some(false),
+            }
+            Item::Modify(m)
+        },
+        &viol,
+        &samples,
+        base,
+        &items,
+        &runs,
+    );
+    base += channel_total;
+    sizes.insert("every_channel_value_modifications".into(), json!(channel_total));
 
     if std::env::var_os("SNT_TIMING").is_some() {
         eprintln!("colours {:.2}", ctx.elapsed());
